@@ -2944,20 +2944,18 @@ static void build_stmt(WorkList *list, ScopeStack *scopes, ASTNode *stmt, int in
             build_expr(list, stmt->as.match_expr.expr, env);
             emit_literal(list, ";\n");
 
-            emit_indent_item(list, indent + 1);
-            emit_literal(list, "switch (_m.tag) {\n");
-
+            /* An if/else chain, not a switch: `break` in an arm leaves the loop around the match */
             for (int i = 0; i < stmt->as.match_expr.arm_count; i++) {
                 const char *variant_name = stmt->as.match_expr.pattern_variants[i];
                 const char *binding_name = stmt->as.match_expr.pattern_bindings[i];
                 ASTNode *arm_body = stmt->as.match_expr.arm_bodies[i];
 
-                emit_indent_item(list, indent + 2);
-                emit_literal(list, "case nl_");
+                emit_indent_item(list, indent + 1);
+                emit_literal(list, i == 0 ? "if (_m.tag == nl_" : "else if (_m.tag == nl_");
                 emit_literal(list, union_c_name);
                 emit_literal(list, "_TAG_");
                 emit_literal(list, variant_name);
-                emit_literal(list, ": {\n");
+                emit_literal(list, ") {\n");
 
                 int variant_field_count = 0;
                 if (udef) {
@@ -2971,7 +2969,7 @@ static void build_stmt(WorkList *list, ScopeStack *scopes, ASTNode *stmt, int in
 
                 if (variant_field_count > 0) {
                     if (binding_name && strcmp(binding_name, "_") != 0) {
-                        emit_indent_item(list, indent + 3);
+                        emit_indent_item(list, indent + 2);
                         emit_literal(list, "nl_");
                         emit_literal(list, union_c_name);
                         emit_literal(list, "_");
@@ -2982,13 +2980,13 @@ static void build_stmt(WorkList *list, ScopeStack *scopes, ASTNode *stmt, int in
                         emit_literal(list, variant_name);
                         emit_literal(list, ";\n");
                     } else {
-                        emit_indent_item(list, indent + 3);
+                        emit_indent_item(list, indent + 2);
                         emit_literal(list, "(void)_m.data.");
                         emit_literal(list, variant_name);
                         emit_literal(list, ";\n");
                     }
                 } else {
-                    emit_indent_item(list, indent + 3);
+                    emit_indent_item(list, indent + 2);
                     emit_literal(list, "(void)_m.data.");
                     emit_literal(list, variant_name);
                     emit_literal(list, ";\n");
@@ -3000,30 +2998,26 @@ static void build_stmt(WorkList *list, ScopeStack *scopes, ASTNode *stmt, int in
                          * here, not at the end of the enclosing scope where they are not visible */
                         scope_stack_push(scopes);
                         for (int j = 0; j < arm_body->as.block.count; j++) {
-                            build_stmt(list, scopes, arm_body->as.block.statements[j], indent + 3, env, fn_registry);
+                            build_stmt(list, scopes, arm_body->as.block.statements[j], indent + 2, env, fn_registry);
                         }
-                        scope_emit_cleanup(scopes, list, indent + 3);
+                        scope_emit_cleanup(scopes, list, indent + 2);
                         scope_stack_pop(scopes);
                     } else {
-                        emit_indent_item(list, indent + 3);
+                        emit_indent_item(list, indent + 2);
                         build_expr(list, arm_body, env);
                         emit_literal(list, ";\n");
                     }
                 }
 
-                emit_indent_item(list, indent + 3);
-                emit_literal(list, "break;\n");
-                emit_indent_item(list, indent + 2);
+                emit_indent_item(list, indent + 1);
                 emit_literal(list, "}\n");
             }
 
-            /* Add default case with __builtin_unreachable() for exhaustive matches
+            /* Add a final else with __builtin_unreachable() for exhaustive matches
              * This tells the compiler that all variants are covered, avoiding
              * "control reaches end of non-void function" warnings on GCC */
-            emit_indent_item(list, indent + 2);
-            emit_literal(list, "default: __builtin_unreachable();\n");
             emit_indent_item(list, indent + 1);
-            emit_literal(list, "}\n");
+            emit_literal(list, stmt->as.match_expr.arm_count > 0 ? "else { __builtin_unreachable(); }\n" : "__builtin_unreachable();\n");
             emit_indent_item(list, indent);
             emit_literal(list, "}\n");
             break;
